@@ -795,6 +795,8 @@ package runtime
 //@ func (*hashTable).reset
 //@   trusted
 //@   modifies heap(hashTable), heap(hashTableSlot)
+//@   ensures result0 == !old(t.find(k)).IsNil()   // (assumed) an existing key is updated in place, an absent one is left alone
+//@   ensures !result0 ==> t.find(k).IsNil()
 //@ func (*hashTable).removeKey
 //@   trusted
 //@   modifies heap(hashTable), heap(hashTableSlot)
@@ -879,6 +881,7 @@ package runtime
 //@   modifies everything()
 //@   assert_before_call set: normKey(k, $k)
 //@   assert_before_call set: $v == v
+//@   assert_before_call (*mixedTable).grow: valueOK(k) ==> t.hashTable.find(ite(keyIsInt(k), IntValue(keyInt(k)), k)).IsNil()   // the table is only rehashed for a key it does not hold: assigning to an existing field never moves keys (allowed during a traversal, manual §6.1 next)
 
 // The length reported from the array part is a border of it.
 //@ func (*mixedTable).len
